@@ -48,7 +48,7 @@ CLAIMS = {
          "part is the tie: channel L drives typed/uninit/dynamic/override/copy entry points under synthetic resolvers whose answers "
          "differ from the host's; C18_table_registered / _keeps / _duplicate / _lookup_normalised over the table model, tied by channel T (standard table vs host resolver, JSON round trip, whitespace lookups, duplicate registration).", "4 C18", L_NOTE,
          "Lean 4 theorems (erasure commutation of every strategy; table model) + correspondence under synthetic type tables"),
- "C19": ("The model is a pure function of the request list (C19_layout_is_function_partial, C19_size_order_stable); the property "
+ "C19": ("The model is a pure function of the request list (C19_layout_is_function_partial, C19_size_order_stable, C19_size_order_sorted_and_stable: the one map traversal is the unique decreasing-size stable order of the request list); the property "
          "is carried by the tie: implementation = that function on every history, in one process (channel L) and across two "
          "separately started processes (byte comparison), the same history twice in a row in one process, and the same histories in reverse order in a third process (what the process did before must not matter). Partial by nature.", "4 C19", L_NOTE,
          "Lean 4 model-as-function + two-process byte comparison"),
